@@ -7,6 +7,9 @@
    from the dispatcher context and from inside event actions; time/priority ties; extreme
    priorities and time scales; populations across the 8/16/32/64 growth thresholds).
 3. Every recorded trace is validated by TLC against spec/EventQueueTrace.tla.
+4. Events that processes wait for: the kernel model's configuration wev2 (TLC) and programs with
+   cmb_process_wait_event run on the real kernel; the monitor rules of C01 (clock never goes back,
+   no cancelled or finished event executes) are folded over their traces.
 """
 import os, json
 import vlib
@@ -46,7 +49,19 @@ def run(tier, replay=None):
         vlib.build_lib(PID, "san")
         variants.append(("san", vlib.cc_harness(PID, "san", "evq_replay")))
     traces = []
+    kernel_replay = None
     if replay:
+        with open(replay) as f:
+            if f.read(5).startswith("prog"):
+                kernel_replay, replay = replay, None
+    kstats = (0, 0, 0)
+    if kernel_replay or not replay:
+        import checks.kcommon as kcommon
+        kstats = kcommon.kernel_part(PID, tier, kernel_replay, v)
+        v.cov["kernel_programs"] = {"programs": kstats[0], "non_trivial": kstats[1], "crashed": kstats[2]}
+    if kernel_replay:
+        pass
+    elif replay:
         tp = os.path.join(out, "replay.ndjson")
         rc, o = vlib.run([variants[0][1], "script", replay, tp], timeout=300)
         traces.append((tp, "replay of " + replay))
@@ -96,8 +111,8 @@ def run(tier, replay=None):
             v.violation("C01|" + rj["rule"] + "|" + rj["op"], rp, "line %d of %s %s" % (rj["line"], tp, rj["detail"][:240]))
     if crashes:
         v.notes.append("%d histories ended in a library abort/crash (reported by the C10 check)" % crashes)
-    v.cov["traces_validated_against_impl"] = nhist
-    v.cov["evaluations"] = nhist
+    v.cov["traces_validated_against_impl"] = nhist + kstats[0]
+    v.cov["evaluations"] = nhist + kstats[0]
     v.cov["distinct_nontrivial"] = len(nontrivial)
     v.cov["crashed_histories"] = crashes
     v.cov["rule"] = ("one history = one event queue lifetime with seeded random operations from dispatcher context and from inside "
